@@ -15,6 +15,14 @@ CLAIMED = {
          "static analysis: MIR guard/binding tables with per-iteration loop rules (RF-GUARD, RF-BIND, RF-ORDER, RF-COVER)"),
  'C18': ("Static rule checking of the structure of the label binding: VRF input hash and commitment formulas depend on all their inputs in both configurations (dataflow), prover and verifier share one encoding function and one truncation, verify_label's parse/verify/compare obligations hold and its callers pass the tree proof's own label. Nothing cryptographic is decided.",
          "static analysis: MIR dataflow completeness + sibling agreement (RF-FLOW, RF-SIB, RF-BIND, RF-GUARD)"),
+ 'C09': ("Static rule checking of the auditor's obligation table: both length guards, per-pair verification with proofs[i], hashes[i], hashes[i+1], epochs[i]+1, start tree = unchanged nodes, end tree = unchanged ∪ inserted hashed with the end epoch, both root comparisons rejecting, and prefix-free validation of the node set before the end tree is built. Decides that no listed check is omitted; the implication to append-only-ness rests on collision resistance and is not decided.",
+         "static analysis: MIR guard/binding tables, dominance of the validation over the tree build (RF-GUARD, RF-BIND, RF-COVER)"),
+ 'C11': ("Static rule checking of the mechanism that hides a half-written commit: the epoch record's priority constant is strictly greatest in an explicit arm, the commit log is sorted by exactly that key and not touched before the database write, the last-record guard precedes the write, the in-memory database applies in vector order; node records are fetched only through the as-of-epoch selectors, latest/previous node fields are read nowhere else, every node returned by the selector was compared last_epoch <= target_epoch, and write_to_storage keeps the previous version as of last_epoch-1. Crash-point behaviour itself is not executed.",
+         "static analysis: constant/ordering facts, who-may-call and field-ownership rules on MIR (RF-GUARD, RF-ORDER, RF-EFFECT, RF-OWN, RF-BIND)"),
+ 'C15': ("Static rule checking of the transaction layer: epoch/version dimension analysis of the merge of database and pending records, every read API consults the transaction log (keyed reads before cache and database), begin is one atomic swap, commit/rollback refuse when inactive and clear the log before lowering the flag, commit returns the whole log sorted by transaction priority, retrieval-flag handling has an explicit arm per variant. Equality of query results over all operation sequences is not decided.",
+         "static analysis: units-of-measure dataflow (epoch vs version) + sibling/ordering rules on MIR (RF-UNIT, RF-SIB, RF-ORDER, RF-BIND)"),
+ 'C16': ("Static rule checking of cache discipline: cache fills of written records are dominated by the success edge of the database write, every database-writing API caches the same records and nothing else writes the database, read paths cache exactly the database result after consulting the transaction log, flush clears every record-holding field, cache/manager/transaction state is module-private, cleaning only removes entries. Timing-dependent behaviour and concurrent tasks are not decided.",
+         "static analysis: dominance (RF-ORDER), sibling agreement, effect sets and field visibility on MIR/ADT facts (RF-SIB, RF-EFFECT, RF-OWN, RF-COVER)"),
 }
 NA = {
  'C08': "the property is arithmetic over runtime values (two marker-version sets computed by bit manipulation always intersect); no shape-of-the-code rule decides it, and the structural part (verifiers enforce the full marker lists) is already decided under C06/C07",
